@@ -179,11 +179,9 @@ impl<L: Localize> OpeningHours<L> {
                     },
                 ),
                 (RuleOperator::Fallback, _) => {
-                    if prev_match
-                        && !(prev_eval.as_ref())
-                            .map(Schedule::is_always_closed)
-                            .unwrap_or(false)
-                    {
+                    // A period spilling from the previous day covers this day as well, even
+                    // though no rule matches the day itself.
+                    if (prev_eval.as_ref()).is_some_and(|sched| !sched.is_always_closed()) {
                         (prev_match, prev_eval)
                     } else {
                         (curr_match, curr_eval)
